@@ -658,13 +658,14 @@ fn dot_grid_cases() -> Vec<(String, Vec<(String, String)>, usize, BTreeSet<Strin
         }
     }
     // value.
-    let fields = [("a", "Int", "1"), ("b", "String", "\"s\"")];
+    // field 2 is `a` again with another type: a label with conflicting types is no accessor
+    let fields = [("a", "Int", "1"), ("b", "String", "\"s\""), ("a", "Float", "1.5")];
     let subsets: Vec<Vec<usize>> = vec![vec![], vec![0], vec![1], vec![0, 1]];
+    let subsets2: Vec<Vec<usize>> = vec![vec![], vec![0], vec![1], vec![0, 1], vec![1, 0], vec![2], vec![2, 1]];
     for v1 in &subsets {
-        for v2 in std::iter::once(None).chain(subsets.iter().map(Some)) {
+        for v2 in std::iter::once(None).chain(subsets2.iter().map(Some)) {
             let variant = |name: &str, fs: &Vec<usize>| if fs.is_empty() { name.to_string() } else { format!("{name}({})", fs.iter().map(|&k| format!("{}: {}", fields[k].0, fields[k].1)).collect::<Vec<_>>().join(", ")) };
             let ty = format!("pub type Rec {{ {} {} }}\npub type Other {{ Other(c: Int) }}\n", variant("V1", v1), v2.map(|f| variant("V2", f)).unwrap_or_default());
-            let all: BTreeSet<String> = v1.iter().chain(v2.into_iter().flatten()).map(|&k| fields[k].0.to_string()).collect();
             let common: BTreeSet<String> = match v2 {
                 None => v1.iter().map(|&k| fields[k].0.to_string()).collect(),
                 Some(f2) => v1.iter().filter(|k| f2.contains(k)).map(|&k| fields[k].0.to_string()).collect(),
@@ -672,11 +673,11 @@ fn dot_grid_cases() -> Vec<(String, Vec<(String, String)>, usize, BTreeSet<Strin
             let ctor = if v1.is_empty() { "V1".to_string() } else { format!("V1({})", v1.iter().map(|&k| fields[k].2).collect::<Vec<_>>().join(", ")) };
             let tag = format!("v1{:?}v2{:?}", v1, v2);
             let local_param = format!("{ty}pub fn main(r: Rec, o: Other) {{ r. }}\n");
-            out.push((format!("value-dot|{tag}|parameter"), vec![("main".to_string(), local_param.clone())], local_param.find("r. ").unwrap() + 2, common.clone(), all.clone()));
+            out.push((format!("value-dot|{tag}|parameter"), vec![("main".to_string(), local_param.clone())], local_param.find("r. ").unwrap() + 2, common.clone(), BTreeSet::new()));
             let local_let = format!("{ty}pub fn main(o: Other) {{ let r = {ctor} r. }}\n");
-            out.push((format!("value-dot|{tag}|let"), vec![("main".to_string(), local_let.clone())], local_let.rfind("r. ").unwrap() + 2, common.clone(), all.clone()));
+            out.push((format!("value-dot|{tag}|let"), vec![("main".to_string(), local_let.clone())], local_let.rfind("r. ").unwrap() + 2, common.clone(), BTreeSet::new()));
             let imported = "import m\npub fn main(r: m.Rec, o: m.Other) { r. }\n".to_string();
-            out.push((format!("value-dot|{tag}|imported"), vec![("main".to_string(), imported.clone()), ("m".to_string(), ty.clone())], imported.find("r. ").unwrap() + 2, common.clone(), all.clone()));
+            out.push((format!("value-dot|{tag}|imported"), vec![("main".to_string(), imported.clone()), ("m".to_string(), ty.clone())], imported.find("r. ").unwrap() + 2, common.clone(), BTreeSet::new()));
         }
     }
     out
@@ -732,7 +733,7 @@ fn dot_grid_layer(rep: &mut Report) {
             rep.violation(x);
         }
     }
-    l.bound = format!("{} completions triggered by '.': after `module.` every subset of 8 item kinds (pub/private function, pub/private constant, pub/private/opaque custom type, pub alias) x 3 import forms (plain, `as`, nested path) x 4 cursor contexts (statement, let value, before a partial name, call argument) - exactly the public functions and the constructors of public non-opaque types; after `value.` every layout of a record type with 1-2 variants over fields {{a, b}} x (annotated parameter, let-bound construction, type imported from another module) - at least the fields common to all variants, at most the fields of that type", cases.len());
+    l.bound = format!("{} completions triggered by '.': after `module.` every subset of 8 item kinds (pub/private function, pub/private constant, pub/private/opaque custom type, pub alias) x 3 import forms (plain, `as`, nested path) x 4 cursor contexts (statement, let value, before a partial name, call argument) - exactly the public functions and the constructors of public non-opaque types; after `value.` every layout of a record type with 1-2 variants over fields {{a: Int, b: String, a: Float}} (subsets, both orders) x (annotated parameter, let-bound construction, type imported from another module) - exactly the fields common to all variants (the accessors Gleam defines for the type)", cases.len());
     rep.layer(l);
 }
 
